@@ -111,6 +111,52 @@ def main(ck, tier, w):
         for p in probs[:3]:
             ck.violation('real XorReader diverges from the plaintext: %s' % str(p)[:300], dict(p, tags=[]))
 
+    # (a') the same reader beyond 4 GiB: sparse file, key lengths that do and do not divide 2^32
+    def far(klen):
+        rng = random.Random('%d-far-%d' % (seed, klen))
+        base = rng.choice([2 ** 32, 2 ** 32 + 1, 2 ** 32 + 4093, 5 * 2 ** 30 + 13, 2 ** 33 + 7]) - 40
+        plain = rng.randbytes(70000)
+        key = rng.randbytes(klen)
+        path = w.sub('xfar')
+        with open(path, 'wb') as f:
+            f.seek(base)
+            kk = (key * (len(plain) // klen + 2))
+            off = base % klen
+            f.write(bytes(a ^ b for a, b in zip(plain, kk[off:off + len(plain)])))
+        lines = ['%s %s %d' % (path, key.hex(), 32768)]
+        expect = []
+        pos = 0
+        for _ in range(40):
+            if rng.random() < 0.5:
+                pos = base + rng.randrange(0, len(plain) - 100)
+                lines.append('seek %d' % pos)
+                expect.append((pos, None))
+            n = rng.choice([1, 4, 80, 300, 33000])
+            data = plain[pos - base:pos - base + n] if pos >= base else None
+            if data is None:
+                pos = base
+                lines.append('seek %d' % pos)
+                expect.append((pos, None))
+                data = plain[:n]
+            pos += len(data)
+            lines.append('read %d' % n)
+            expect.append((pos, data))
+        rc, outs, err = run.run_driver('xor-ops', lines)
+        os.unlink(path)
+        if len(outs) != len(expect):
+            raise run.ToolError('xor-ops (far) answered %d of %d' % (len(outs), len(expect)))
+        for k, (got, (p, d)) in enumerate(zip(outs, expect)):
+            if not isinstance(got, dict) or got.get('pos') != p or (d is not None and got.get('data') != d.hex()):
+                return klen, base, 'call %d (%s): position/data differ from the plaintext at offset %d (got pos %s)' % (k, lines[k + 1], p, got.get('pos') if isinstance(got, dict) else got)
+        return klen, base, None
+    for klen, base, p in chains.pmap(far, [1, 2, 3, 5, 7, 8, 8, 12, 13, 31, 64]):
+        ck.evals(40)
+        ck.traces()
+        ck.distinct(('far', klen, base))
+        if p:
+            ck.violation('key length %d, file offsets from %d: %s' % (klen, base, p), {'key_len': klen, 'base_offset': base, 'tags': []})
+    ck.sample({'beyond_4GiB': {'key_lengths': [1, 2, 3, 5, 7, 8, 12, 13, 31, 64], 'first_offset_about': 2 ** 32}})
+
     # (b) end-to-end: layouts plain vs obfuscated
     lcfg = 'MC_Layout_q' if quick else 'MC_Layout_t'
     lres = run.tlc('MC_Layout', lcfg, workers=8, timeout=1500)
@@ -135,7 +181,8 @@ def main(ck, tier, w):
         for xk in (None, key):
             r1 = random.Random('%d-e2e-%d-phys' % (seed, i))      # same physical layout for both
             d = layout.materialise(w.sub('dd'), blocks, placement, r1, coin=coin, xor_key=xk, fileno=fileno,
-                                   namer=lambda n: 'blk%05d.dat' % n)
+                                   namer=lambda n: 'blk%05d.dat' % n,
+                                   big_offset=(n - 1, 2 ** 32 + 8 + (i * 7919) % 50000) if i % 10 == 0 else None)
             cb = rng.choice(['csvdump', 'csvdump', 'unspentcsvdump', 'balances', 'simplestats', 'opreturn']) if xk is None else cb
             outs.append(layout.run_csv(w, d, coin, obs['start'], obs['end'], cb=cb))
         a, b = outs
